@@ -150,6 +150,17 @@ class Harness(object):
         mine.append('PUT')        # the list stays the caller's: what happens to it afterwards is not the route's
         return rt
 
+    def bad_entries(self):
+        from clastic import Route, Middleware
+        from werkzeug.wrappers import Response
+
+        class W(Middleware):
+            wsgi_wrapper = 5
+
+        def steal():
+            return Response('STOLEN', headers={'X-Marker': 'failed-add'})
+        return [Route('/<p*>', steal, middlewares=[W()]), ('/<p*>', lambda nowhere_defined: None)]
+
     def build(self, table, mode, order=None):
         """order None: constructor list. Otherwise a permutation: insertion order of table positions."""
         from clastic import Application
@@ -166,6 +177,14 @@ class Harness(object):
             idx = sum(1 for q in inserted if q < pos)
             inserted.append(pos)
             e = self.entry(pos, table[pos], 'add')
+            # an add() that fails (here: a middleware whose WSGI wrapper is unusable, on a route that would answer
+            # everything first) is not an insertion: the table stays what the successful calls made it
+            self.failed_adds = getattr(self, 'failed_adds', 0)
+            for bad in self.bad_entries():
+                try:
+                    app.add(bad, 0)
+                except Exception:
+                    self.failed_adds += 1
             if idx == len(inserted) - 1 and (k + pos) % 2 == 0:
                 app.add(e)            # index=None appends
             else:
@@ -329,6 +348,63 @@ def check_x(acc, h, combo, raw_request):
                               {'x': list(combo), 'raw_request': raw_request, 'path': path, 'method': method})
 
 
+STATIC_PATHS = ['/static/c06.txt', '/static/missing.txt', '/static/../c06.txt', '/static/sub/../../x', '/static/a//b',
+                '/static/.', '/static/%2e%2e/x', '/static/sub', '/static/', '/static']
+STATIC_TABLES = ('static-then-route', 'two-statics-then-route', 'static-then-405-then-route')
+
+
+def check_static(acc):
+    """A static application in front of other routes is a route like any other: for a path it does not serve - a
+    missing file, a directory, or a path it refuses to look up - the search moves on to the routes after it."""
+    import tempfile, shutil
+    from clastic import Application, Route, POST
+    from clastic.static import StaticApplication
+    from werkzeug.wrappers import Response
+    d = tempfile.mkdtemp(prefix='c06-static-')
+    try:
+        os.mkdir(os.path.join(d, 'sub'))
+        with open(os.path.join(d, 'c06.txt'), 'w') as f:
+            f.write('file-content')
+        log = []
+
+        def later(p):
+            log.append(p)
+            return Response('later', headers={'X-Marker': 'later'})
+        for tname in STATIC_TABLES:
+            routes = [('/static', StaticApplication(d))]
+            if tname == 'two-statics-then-route':
+                routes.append(('/static', StaticApplication(os.path.join(d, 'sub'))))
+            if tname == 'static-then-405-then-route':
+                routes.append(POST('/static/<p*>', later))
+            routes.append(Route('/static/<p*>', later))
+            app = Application(routes)
+            for path in STATIC_PATHS:
+                acc.evaluated += 1
+                acc.transitions += 1
+                acc.validated += 1
+                acc.add('nontrivial')
+                del log[:]
+                if '%' in path:
+                    res = wsgi.call(app, None, environ=wsgi.dev_server_environ(path, 'GET'))
+                else:
+                    res = wsgi.call(app, path, 'GET')
+                case = {'static': tname, 'path': path}
+                served = path == '/static/c06.txt'
+                acc.outcome('static:%s' % ('file' if served else 'falls-through'))
+                if res.raised is not None:
+                    acc.violation('C06:static:raised', 'request %s raised %r' % (path, res.raised), case)
+                elif served:
+                    if res.code != 200 or res.body != b'file-content' or log:
+                        acc.violation('C06:static:file', 'the file is not served first: %s %r, later route ran %r' % (res.status, res.body[:40], log), case)
+                elif path in ('/static',):
+                    pass      # the branch redirect of the mount point itself
+                elif res.code != 200 or res.header('X-Marker') != 'later' or len(log) != 1:
+                    acc.violation('C06:static:no-fallthrough', 'table %s: GET %s is not served by the static application, the route '
+                                  'after it must answer; got %s, later route ran %d time(s)' % (tname, path, res.status, len(log)), case)
+    finally:
+        shutil.rmtree(d, ignore_errors=True)
+
+
 def nshards(tier):
     return 32 if tier == 'quick' else 64
 
@@ -337,6 +413,8 @@ def shard(tier, i, n, seed):
     common.setup_repo()
     acc = common.Acc()
     h = Harness()
+    if i == 1:
+        check_static(acc)
     for name, cat, ns, modes, with_add in layers(tier):
         size = layer_size(cat, ns, modes)
         for idx in range(i, size, n):
@@ -374,6 +452,7 @@ def space_size(tier):
                 mult += f
             total += t * mult * nreq
     total += len(x_tables()) * len(X_PATHS) * len(X_METHODS)
+    total += len(STATIC_TABLES) * len(STATIC_PATHS)
     return total
 
 
@@ -402,6 +481,10 @@ def replay(case):
     common.setup_repo()
     acc = common.Acc()
     h = Harness()
+    if 'static' in case:
+        check_static(acc)
+        bad = [v for v in acc.violations if v['case'] == case]
+        return (False, bad[0]['desc']) if bad else (True, 'ok')
     if 'x' in case:
         check_x(acc, h, tuple(case['x']), case['raw_request'])
         bad = [v for v in acc.violations if v['case']['path'] == case['path'] and v['case']['method'] == case['method']]
